@@ -366,22 +366,26 @@ def State.fired (s : State) : Nat :=
   (s.timers.filter (fun r => r.st == .running || r.st == .done)).length
 
 /-- all maximal schedules with at most `maxFire` firings, depth-first, at most `cap` of them;
-    each with the final state.  `fuel` bounds the depth. -/
-def explore (P : Protocol) (maxFire : Nat) : Nat → State → List Action → Nat →
-    List (List Action × State) → List (List Action × State)
-  | 0, s, pre, _, acc => (pre.reverse, s) :: acc
-  | fuel + 1, s, pre, cap, acc =>
-    if acc.length ≥ cap then acc
+    each with the final state.  `fuel` bounds the depth.  The accumulator carries its length. -/
+def exploreAux (P : Protocol) (maxFire cap : Nat) : Nat → State → List Action →
+    Nat × List (List Action × State) → Nat × List (List Action × State)
+  | 0, s, pre, acc => (acc.1 + 1, (pre.reverse, s) :: acc.2)
+  | fuel + 1, s, pre, acc =>
+    if acc.1 ≥ cap then acc
     else
       let en := (enabledActions P s).filter (fun a =>
         match a with
         | .fire _ => s.fired < maxFire
         | _ => true)
-      if en.isEmpty then (pre.reverse, s) :: acc
+      if en.isEmpty then (acc.1 + 1, (pre.reverse, s) :: acc.2)
       else en.foldl (fun acc a =>
         match step P s a with
-        | some s' => explore P maxFire fuel s' (a :: pre) cap acc
+        | some s' => exploreAux P maxFire cap fuel s' (a :: pre) acc
         | none => acc) acc
+
+def explore (P : Protocol) (maxFire : Nat) (fuel : Nat) (s : State) (pre : List Action)
+    (cap : Nat) (acc : List (List Action × State)) : List (List Action × State) :=
+  (exploreAux P maxFire cap fuel s pre (acc.length, acc)).2
 
 /-! ### The race of the legacy protocol, as a schedule -/
 
